@@ -4,9 +4,9 @@
 #   2. the demonstration test fails with the patch and passes without it
 # prints a one-line JSON summary; leaves the worktree clean
 set -u
-id=$1
-wt=/tmp/seed_$id
-out=/tmp/seed_${id}_out
+id=$1; prefix=${2:-seed}
+wt=/tmp/${prefix}_$id
+out=/tmp/${prefix}_${id}_out
 cd "$wt" || exit 2
 git checkout -q -- . ; git clean -fdq -e target
 git apply "$out/patch.diff" || { echo "{\"id\":\"$id\",\"error\":\"patch does not apply\"}"; exit 1; }
